@@ -55,7 +55,12 @@ class BaseMerger(ABC):
                     continue
 
                 association = data.association.name
-                label = (data.name, data.entity_type.name, association)
+                label = (
+                    data.name,
+                    data.entity_type.name,
+                    data.entity_type.primitive_type,
+                    association,
+                )
                 start, end = (
                     data_count[association],
                     data_count[association] + data.n_values,
@@ -72,11 +77,7 @@ class BaseMerger(ABC):
                             )
                         )
                     ):
-                        label = (
-                            data.name + f"({ind})",
-                            data.entity_type.name,
-                            association,
-                        )
+                        label = (data.name + f"({ind})",) + label[1:]
                         warn(
                             f"Multiple data '{data.name}' with entity_type "
                             f"name '{data.entity_type.name}' "
